@@ -98,6 +98,19 @@ def cumTimes (T : Rat) : List Rat → List Rat
 def mixLength (evs : List (SEv α)) : Nat :=
   evs.foldl (fun m e => max m (e.start + e.data.length)) 0
 
+/-- a batch of events as a history of `add`s -/
+def addOps (evs : List (Rat × List α)) : List (Op α) := evs.map fun p => .add p.1 p.2
+
+/-- the log of a batch of events all added at moment `n`, the time accepted before being `T`:
+    event i starts at `max(nearest(T + d_0 + … + d_i), n)` -/
+def batchLog (n : Nat) : Rat → List (Rat × List α) → List (SEv α)
+  | _, [] => []
+  | T, p :: r => ⟨startTime (T + p.1) n, p.2⟩ :: batchLog n (T + p.1) r
+
+/-- the observations of `k` consecutive `next`s on a finite mix with log `evs`, from sample `n` -/
+def outObs [Add α] (zero : α) (evs : List (SEv α)) (i : Nat) : Obs α :=
+  .out (outAt zero i evs) (evs.countP (fun e => e.start == i))
+
 /-- ControlStream: the value most recently assigned before the end of the history `h`
     (the constructor's value when there was no assignment) -/
 def lastAssigned (init : β) : List (COp β) → β
